@@ -11,6 +11,9 @@
 -/
 import Fir.Model.ResizerState
 import Fir.Proofs.StructLemmas
+import Fir.Model.ProtoResize
+import Fir.Proofs.LayoutLemmas
+import Fir.Proofs.ViewLemmas
 
 namespace Fir.C09
 open Fir
@@ -31,6 +34,16 @@ theorem buffers_grow (s : RState) (p : PixT) (src prev : Img) (o : ROpts) (need 
     s.alphaLen ≤ s'.alphaLen ∧ s.convLen ≤ s'.convLen ∧ s.ssLen ≤ s'.ssLen ∧
     need.1 ≤ s'.alphaLen ∧ need.2.1 ≤ s'.convLen ∧ need.2.2 ≤ s'.ssLen :=
   Fir.Proofs.buffers_grow s p src prev o need g
+
+/-- scratch content never leaks: a temporary image is a typed view `T(off, w, h, w*h)` carved out of a
+    scratch buffer that holds ARBITRARY content `g` from earlier calls; the first pass writes its whole
+    result through that view and the second pass reads through the same view - what it reads is exactly
+    the first pass's result, for every `g` (so for every history of the resizer) -/
+theorem scratch_fully_overwritten (off w h n : Nat) (hn : 0 < n) (im : Img) (g : Array Int)
+    (hdim : im.data.size = w * h * n) (hw : 0 < w)
+    (hfit : (off + w * h) * n ≤ g.size) :
+    (extractImg (View.typed off w h (w * h)) n (injectImg (View.typed off w h (w * h)) n im g)).data = im.data :=
+  Fir.Proofs.scratch_fully_overwritten off w h n hn im g hdim hw hfit
 
 /-- `get_temp_image_from_buffer`: a buffer of `count·size + size` bytes holds `count` pixels after
     skipping any alignment offset smaller than the pixel size -/
